@@ -89,9 +89,55 @@ func ruleWriterInvariant(c *Ctx, p *core.Program, prefix string) {
 		c.must(p, "(*proto.Writer)."+name, fn != nil)
 		return fn
 	}
-	chainWrite, cut, reset, flush := get("ChainWrite"), get("cutBuffer"), get("reset"), get("Flush")
+	chainWrite, cut, flush := get("ChainWrite"), get("cutBuffer"), get("Flush")
+	// the reset routine is found by what it does: the Writer method that stores the
+	// constant 0 to the offset field (it may be unexported, or the exported Reset itself)
+	var reset *ssa.Function
+	bestScore := 0
+	if wt := p.NamedType(core.PkgProto, "Writer"); wt != nil {
+		for i := 0; i < wt.NumMethods(); i++ {
+			fn := p.Prog.FuncValue(wt.Method(i))
+			if fn == nil || fn.Blocks == nil {
+				continue
+			}
+			if fn == chainWrite || fn == cut || fn == flush {
+				continue
+			}
+			score := 0
+			for _, st := range storesTo(fn, fOff) {
+				if k, ok := core.ConstInt(st.Val); ok && k == 0 {
+					score++
+				}
+			}
+			for _, st := range storesTo(fn, fVec) {
+				if sl, ok := st.Val.(*ssa.Slice); ok && sl.High != nil {
+					if k, ok := core.ConstInt(sl.High); ok && k == 0 {
+						score++
+					}
+				}
+			}
+			if len(core.FindCalls(fn, func(f *types.Func) bool { return core.IsMethod(f, core.PkgProto, "Buffer", "Reset") })) > 0 {
+				score++
+			}
+			if score > bestScore || score == bestScore && score > 0 && reset != nil && fn.Name() < reset.Name() {
+				bestScore, reset = score, fn
+			}
+		}
+	}
+	c.must(p, "(*proto.Writer) reset routine (clears offset / vector / staging buffer)", reset != nil)
 	if chainWrite == nil || cut == nil || reset == nil || flush == nil {
 		return
+	}
+	// a call of the reset routine, directly or through a thin wrapper method
+	isResetCall := func(f *types.Func) bool {
+		if f == nil || !core.IsMethod(f, core.PkgProto, "Writer", f.Name()) {
+			return false
+		}
+		if f == fnObj(reset) {
+			return true
+		}
+		g := p.Prog.FuncValue(f)
+		return g != nil && g.Blocks != nil && len(g.Blocks) == 1 && core.ReachesCallee(g, func(h *types.Func) bool { return h == fnObj(reset) }, 0)
 	}
 	c.R.Notes = append(c.R.Notes, "invariant proved by induction over the Writer methods: pending output = concat(vec) ++ buf[bufOffset:]; each rule is one induction step")
 
@@ -203,7 +249,7 @@ func ruleWriterInvariant(c *Ctx, p *core.Program, prefix string) {
 			c.R.Bad(rule, core.FuncName(flush), cfg, p.Pos(w.Pos()), "the vector is written before the staging buffer's tail is cut into it: the tail is lost or delayed")
 			return
 		}
-		miss := core.ReachAvoiding(core.PointOf(w), core.IsExit, func(in ssa.Instruction) bool { return core.IsCallOf(in, isWriterMethod("reset")) }, nil)
+		miss := core.ReachAvoiding(core.PointOf(w), core.IsExit, func(in ssa.Instruction) bool { return core.IsCallOf(in, isResetCall) }, nil)
 		if len(miss) > 0 {
 			c.R.Bad(rule, core.FuncName(flush), cfg, p.Pos(miss[0].At.Pos()), "Flush can return (write error) without resetting: what was queued before the failed flush is written again by the next one", p.TrailString(miss[0])...)
 			return
@@ -245,7 +291,7 @@ func ruleWriterInvariant(c *Ctx, p *core.Program, prefix string) {
 	rule = prefix + ".confine"
 	c.R.Rule(rule, "bufOffset and vec are written only by ChainWrite, cutBuffer, reset and the constructor; the staging buffer is only appended to (C01.append over every ChainBuffer callback), so bufOffset always points into it")
 	func() {
-		allowed := map[string]bool{"ChainWrite": true, "cutBuffer": true, "reset": true, "NewWriter": true}
+		allowed := map[string]bool{chainWrite.Name(): true, cut.Name(): true, reset.Name(): true, "NewWriter": true}
 		bad := false
 		n := 0
 		for _, fn := range p.Funcs() {
@@ -281,7 +327,7 @@ func ruleWriterInvariant(c *Ctx, p *core.Program, prefix string) {
 
 	// the exported discard used by the client (Reset) performs the full reset
 	if rs := p.Method(core.PkgProto, "Writer", "Reset"); rs != nil {
-		if core.ReachesCallee(rs, isWriterMethod("reset"), 0) {
+		if rs == reset || core.ReachesCallee(rs, isResetCall, 0) {
 			c.R.Ok(prefix+".reset", core.FuncName(rs), cfg, p.Pos(rs.Pos()), "Reset = reset")
 		} else {
 			c.R.Bad(prefix+".reset", core.FuncName(rs), cfg, p.Pos(rs.Pos()), "the exported Reset (used to discard the output of a failed request) does not perform the full reset")
